@@ -627,26 +627,96 @@ def o_nr_contract(ctx, case):
             return '%s: objective at the reported optimum %r = %r is above its value %r at the initial point %r' % (
                 tag, ns, f, f0, case['ns0'])
     if case['kind'] == 'scan':
-        # brute force over the scan values: the reported result is the best NR result, first one on ties
-        from skyllh.core.minimizer import NR1dNsMinimizerImpl
-        p2s = np.linspace(case['p2lo'], case['p2hi'], int((case['p2hi'] - case['p2lo']) / case['p2step']) + 1)
-        best = None
-        tot = 0
-        kw = {'ns_pidx': ii} if ii != 0 else {}
-        for p2 in p2s:
-            o2 = Objective(case, obj.llh)
-            with warnings.catch_warnings():
-                warnings.simplefilter('ignore')
-                (xx, ff, st) = NR1dNsMinimizerImpl(ns_tol=tol, max_steps=ms, cfg=cfg()).minimize(
-                    with_ns(case, init, case['ns0'], p2), np.array(bounds), o2, **kw)
-            tot += st['niter']
-            if best is None or ff < best[1]:
-                best = (xx, ff, st)
-        if not (_same(float(best[1]), f) and _same(float(best[0][jj]), x[jj]) and _same(float(best[0][ii]), ns)):
+        r = _scan_brute_force(ctx, case, res, obj, tag)
+        if r:
+            return r
+    return None
+
+
+def _ulp_shift(v, k):
+    v = F64(v)
+    for _ in range(abs(k)):
+        v = np.nextafter(v, F64(np.inf) if k > 0 else F64(-np.inf))
+    return float(v)
+
+
+def _scan_brute_force(ctx, case, res, obj, tag):
+    """NR+scan against a brute force over the scan grid.  Verdict relation (the property speaks of a grid of the second
+    parameter within its bounds and of the best NR result, not of the last bits of interior grid values):
+      * the reported p2 lies in [p2lo, p2hi] and within a few ulp (of the bound magnitudes / the range) of a member k* of the
+        ideal grid lo + k (hi - lo) / (n - 1);
+      * (ns, fmin) equal the NR-1D result *at the reported p2* (1e-9; bit equality is only counted);
+      * no other grid member is better by more than the conditioning of its NR result under a few ulp of p2; a *robust* exact
+        tie (the NR minimum does not move at all under that perturbation) must be resolved in favour of the first member;
+      * p2_n_steps exact, summed niter within what those perturbations explain."""
+    from skyllh.core.minimizer import NR1dNsMinimizerImpl
+    lo, hi, tol, ms = case['lo'], case['hi'], case['tol'], case['max_steps']
+    (order, ii, jj) = layout(case)
+    (init, bounds) = init_bounds(case)
+    x, f, niter = res['x'], res['f'], res['niter']
+    ns = x[ii]
+    p2lo, p2hi = float(case['p2lo']), float(case['p2hi'])
+    n = int((p2hi - p2lo) / case['p2step']) + 1
+    ideal = np.linspace(p2lo, p2hi, n)
+    kw = {'ns_pidx': ii} if ii != 0 else {}
+
+    def nr_at(p2):
+        with warnings.catch_warnings():
+            warnings.simplefilter('ignore')
+            (xx, ff, st) = NR1dNsMinimizerImpl(ns_tol=tol, max_steps=ms, cfg=cfg()).minimize(
+                with_ns(case, init, case['ns0'], p2), np.array(bounds), Objective(case, obj.llh), **kw)
+        return (float(xx[ii]), float(ff), int(st['niter']))
+    p2r = float(x[jj])
+    if not (p2lo <= p2r <= p2hi):
+        return '%s: the reported value %r of the scanned parameter lies outside its bounds [%r, %r]' % (tag, p2r, p2lo, p2hi)
+    ks = int(np.argmin(np.abs(ideal - p2r)))
+    grid_tol = 8 * np.finfo(np.float64).eps * max(abs(p2lo), abs(p2hi), p2hi - p2lo) + 1e-300
+    if abs(float(ideal[ks]) - p2r) > grid_tol:
+        return ('%s: the reported value %r of the scanned parameter is no member of the scan grid of %d equidistant values over [%r, %r] '
+                '(nearest member %r)') % (tag, p2r, n, p2lo, p2hi, float(ideal[ks]))
+    ctx.count('scan:p2-bit-equal-to-linspace' if _same(float(ideal[ks]), p2r) else 'scan:p2-within-ulps-of-linspace')
+    ref = [nr_at(p2r) if k == ks else nr_at(float(ideal[k])) for k in range(n)]
+    (rns, rf, _) = ref[ks]
+    if not (_close(rf, f) and _close(rns, ns)):
+        return '%s: reported (ns, p2, fmin) = (%r, %r, %r), the NR-1D result at that value of the scanned parameter is (%r, %r)' % (
+            tag, ns, p2r, f, rns, rf)
+    if not (_same(rf, f) and _same(rns, ns)):
+        ctx.count('scan:result-differs-in-last-bits')
+    pert = {}
+
+    def sens(k):
+        """how much the NR minimum at grid member k moves under +-4 ulp of p2 (and the niter values seen there)"""
+        if k not in pert:
+            c0 = p2r if k == ks else float(ideal[k])
+            around = [nr_at(min(max(_ulp_shift(c0, d), p2lo), p2hi)) for d in (-4, 4)]
+            d = max(abs(a[1] - ref[k][1]) for a in around)
+            its = [a[2] for a in around] + [ref[k][2]]
+            if len(set(its)) > 1:        # the Newton iteration stops one step earlier / later next to this point
+                t3 = Objective(case, obj.llh).triple(np.array(with_ns(case, init, ref[k][0], c0), dtype=np.float64))
+                d += (abs(float(t3[1])) + abs(float(t3[2])) * tol) * 2 * tol
+            pert[k] = (d, min(its), max(its))
+        return pert[k]
+    for k in range(n):
+        if k == ks:
+            continue
+        fk = ref[k][1]
+        if fk > f or (k > ks and fk == f):
+            continue                      # clearly worse, or an exact tie at a later member
+        slack = 4 * (sens(k)[0] + sens(ks)[0])
+        if slack > 0:
+            slack += 1e-13 * (1 + abs(f))
+        if fk < f - slack or (k < ks and slack == 0 and fk == f):
             return '%s: reported (ns, p2, fmin) = (%r, %r, %r), the first best NR result over the %d scan values is (%r, %r, %r)' % (
-                tag, ns, x[jj], f, len(p2s), float(best[0][ii]), float(best[0][jj]), float(best[1]))
-        if res['nsteps'] != len(p2s) or niter != tot:
-            return '%s: status p2_n_steps=%d niter=%d, expected %d and %d' % (tag, res['nsteps'], niter, len(p2s), tot)
+                tag, ns, p2r, f, n, ref[k][0], float(ideal[k]), fk)
+        ctx.count('scan:tie-within-conditioning')
+    tot = sum(r_[2] for r_ in ref)
+    if res['nsteps'] != n:
+        return '%s: status p2_n_steps=%d niter=%d, expected %d and %d' % (tag, res['nsteps'], niter, n, tot)
+    if niter != tot:
+        (tmin, tmax) = (sum(sens(k)[1] for k in range(n)), sum(sens(k)[2] for k in range(n)))
+        if not (tmin <= niter <= tmax):
+            return '%s: status p2_n_steps=%d niter=%d, expected %d and %d' % (tag, res['nsteps'], niter, n, tot)
+        ctx.count('scan:niter-within-conditioning')
     return None
 
 
@@ -2334,7 +2404,7 @@ def _classify(res):
     m = re.search(r'raised (\w+)', res)
     if m:
         return 'raises-' + m.group(1)
-    for key, tag in (('not the function value', 'fmin-not-a-value'), ('outside', 'out-of-bounds'), ('func(xmin', 'fmin-inconsistent'), ('silently', 'silent-nonconverged'),
+    for key, tag in (('not the function value', 'fmin-not-a-value'), ('no member of the scan grid', 'scan-grid'), ('outside', 'out-of-bounds'), ('func(xmin', 'fmin-inconsistent'), ('silently', 'silent-nonconverged'),
                      ('warnflag', 'flag'), ('stationary', 'not-stationary'), ('initial point', 'worse-than-initial'),
                      ('containing NaN', 'nan-passed-through'), ('must not vary', 'wrong-parameter-varied'), ('initial value of the second', 'scan-worse-than-initial'), ('dropped silently', 'scan-point-not-converged'), ('log_lambda_max', 'maximize-negation'), ('repetitions', 'repetitions'), ('first best', 'scan-best'),
                      ('on the same object', 'stale-state-between-minimisations'), ('FuncWithGradsFunctor', 'functor-cache'), ('swallowed', 'exception-swallowed'), ('scripted optimiser', 'lbfgs-restart-logic'), ('is_repeatable', 'status-table'), ('has_converged', 'status-table'), ('function of the point', 'objective-not-a-function-of-the-point'), ('negated value', 'objective-negation'), ('the bounds are', 'bounds-mode'), ('handed in', 'input-mutated-or-aliased'), ('float64 ndarray', 'xmin-type'), ('given the bounds', 'impl-out-of-bounds'), ('constrained optimum', 'not-constrained-optimum'),
